@@ -121,9 +121,11 @@ func TestVerifC16(t *testing.T) {
 	run := ev.New("C16", "exploration",
 		"all assignments of (Call-ID, two tags, two URIs) over small alphabets (equal URIs, equal tags, '-' values included) x orientation x request/response x 6 decorations x 4 header-name spellings, plus random long identifiers; "+
 			"monitor: identifier <-> canonical key must be a bijection and tag-less messages must yield no identifier; distinct = distinct canonical keys")
-	callIDs := []string{"a", "a-b", "b", "a-b-1"}
-	tags := []string{"1", "b-1", "2", "1-2", "-"}
-	uris := []string{"sip:h", "sip:u@h", "sip:u@h:5060", "sip:v@h", "sip:u@g", "tel:+1", "urn:service:sos", "sip:h-2"}
+	// (values whose concatenations coincide - "a"+"11" / "a1"+"1", "sip:h"+"21" / "sip:h2"+"1" -
+	// are there for identifiers that lose a boundary between their parts)
+	callIDs := []string{"a", "a-b", "b", "a-b-1", "a1"}
+	tags := []string{"1", "b-1", "2", "1-2", "-", "11", "21"}
+	uris := []string{"sip:h", "sip:u@h", "sip:u@h:5060", "sip:v@h", "sip:u@g", "tel:+1", "urn:service:sos", "sip:h-2", "sip:h2"}
 	if ev.Thorough() {
 		callIDs = append(callIDs, "1", "a-1", "x@h", "-")
 		tags = append(tags, "a", "2-b", "a-b")
@@ -131,6 +133,9 @@ func TestVerifC16(t *testing.T) {
 	}
 	mon := &c16Monitor{idOfKey: map[string]string{}, keyOfID: map[string]string{}, witness: map[string]string{}}
 	nvariants := 24
+	if !ev.Thorough() {
+		nvariants = 12 // both orientations x request/response x 3 decorations
+	}
 	messages := int64(0)
 	observe := func(c c16Case, text string) bool {
 		m, err := vfParseUDP([]byte(text))
